@@ -339,6 +339,64 @@ func (p *Program) guardedInEveryContext(b *ssa.BasicBlock, pred func(guardFact) 
 }
 
 func (p *Program) guardedOnAllPaths(b *ssa.BasicBlock, pred func(guardFact) bool, depth int) bool {
+	return p.guardedOnAllPathsOpt(b, pred, depth, true)
+}
+
+// helperEstablishes: whenever the call behind v (a bool result of a module function: the call itself, or one
+// element of its result tuple) yields `want`, a fact satisfying pred holds inside the callee - on every return that
+// can yield it, the returned expression implies such a fact or the return is reached only past one.
+func (p *Program) helperEstablishes(v ssa.Value, want bool, pred func(guardFact) bool, depth int) bool {
+	if depth > 3 {
+		return false
+	}
+	var c *ssa.Call
+	idx := 0
+	switch x := v.(type) {
+	case *ssa.Call:
+		c = x
+	case *ssa.Extract:
+		c, _ = x.Tuple.(*ssa.Call)
+		idx = x.Index
+	}
+	if c == nil || c.Call.IsInvoke() {
+		return false
+	}
+	callee := c.Call.StaticCallee()
+	if callee == nil || !p.InModule(callee) || len(callee.Blocks) == 0 || idx >= callee.Signature.Results().Len() {
+		return false
+	}
+	if bt, ok := callee.Signature.Results().At(idx).Type().Underlying().(*types.Basic); !ok || bt.Kind() != types.Bool {
+		return false
+	}
+	can := false
+	all := true
+	eachInstr(callee, func(in ssa.Instruction) {
+		rt, ok := in.(*ssa.Return)
+		if !ok || idx >= len(rt.Results) {
+			return
+		}
+		fs, never := p.factsWhenDepth(rt.Results[idx], want, depth+1)
+		if never {
+			return
+		}
+		can = true
+		for _, f := range fs {
+			if pred(f) {
+				return
+			}
+			if _, isConst := f.Cond.(*ssa.Const); !isConst && f.Cond != rt.Results[idx] && p.helperEstablishes(f.Cond, f.True, pred, depth+1) {
+				return
+			}
+		}
+		if p.guardedOnAllPathsOpt(rt.Block(), pred, depth+1, false) {
+			return
+		}
+		all = false
+	})
+	return can && all
+}
+
+func (p *Program) guardedOnAllPathsOpt(b *ssa.BasicBlock, pred func(guardFact) bool, depth int, climb bool) bool {
 	fn := b.Parent()
 	if len(fn.Blocks) == 0 {
 		return false
@@ -360,6 +418,12 @@ func (p *Program) guardedOnAllPaths(b *ssa.BasicBlock, pred func(guardFact) bool
 				return true
 			}
 		}
+		// the test is made by a helper that reports it as (one of) its results: ok := matches(a, b)
+		for _, f := range fs {
+			if p.helperEstablishes(f.Cond, f.True, pred, depth) {
+				return true
+			}
+		}
 		return false
 	}
 	if b != fn.Blocks[0] {
@@ -370,7 +434,7 @@ func (p *Program) guardedOnAllPaths(b *ssa.BasicBlock, pred func(guardFact) bool
 		}
 	}
 	// not established inside the function: look at the call sites of a transparent helper
-	if fn.Parent() != nil || !p.isTransparent(fn) || depth > 3 {
+	if !climb || fn.Parent() != nil || !p.isTransparent(fn) || depth > 3 {
 		return false
 	}
 	sites := p.helpers().sites[fn]
